@@ -494,18 +494,18 @@ SPECS = {
     "C01": {
         "legs": [leg_ambient_env],
         "profiles": ["release"],
-        "rule": "every sequence of 1..L symbols over {( ) ! , -a -and -o -or -true '-name x' -print} (L=6 quick, 8 thorough; exhaustive), mutated sentences of length 9-40, random well-formed trees rendered with minimal/redundant parentheses; each compared with two agreeing spec-side recognisers and the spec-side tree. distinct_nontrivial = sentences using >= 2 operator levels (or implicit AND next to an explicit operator) plus non-sentences that have a non-empty sentence prefix.",
+        "rule": "every sequence of 1..L symbols over {( ) ! , -a -and -o -or -true '-name x' -print} (L=6 quick, 8 thorough; exhaustive), mutated sentences of length 9-40, random well-formed trees rendered with minimal/redundant parentheses; each compared with two agreeing spec-side recognisers and the spec-side tree. Also flat chains of 60-650 symbols, chains of 100-900 small groups, and chains of 1100-6000 operands (half of them one unbroken implicit-AND chain). distinct_nontrivial = sentences using >= 2 operator levels (or implicit AND next to an explicit operator) plus non-sentences that have a non-empty sentence prefix.",
     },
     "C02": {
         "legs": [leg_ambient_env],
         "profiles": ["release"],
         "uses_model": True,
-        "rule": "cases: (a) every supported test/action kind alone with boundary-rich arguments, (b) every supported format directive alone/in pairs, (c) random operator trees of 1-8 leaves built through the public constructors, (d) the same through parse(); each compiled, executed in the model runtime on records directed at its constants (value-1/value/value+1 per unit, every type, every permission bit flip, matching / case-variant / near-miss names) plus random records, and compared with the reference evaluator (truth, ordered outputs per destination, stop request). distinct_nontrivial = distinct trees whose record set produced both a true and a false outcome.",
+        "rule": "cases: (a) every supported test/action kind alone with boundary-rich arguments, (b) every supported format directive alone/in pairs, (c) random operator trees of 1-8 leaves built through the public constructors, (d) the same through parse(); each compiled, executed in the model runtime on records directed at its constants (value-1/value/value+1 per unit, every type, every permission bit flip, matching / case-variant / near-miss names) plus random records, and compared with the reference evaluator (truth, ordered outputs per destination, stop request). Also trees whose leaves are related (equal-valued copies, neighbouring constants, other comparison form / case rule / terminator), same-field comparison pairs with boundary constants in the same or another unit, coincidence records (all numeric fields equal to one constant, equal timestamps, name = own pattern text, xattr value = name, very long path) and magic numbers. distinct_nontrivial = distinct trees whose record set produced both a true and a false outcome.",
     },
     "C03": {
         "profiles": [],
         "legs": [leg_c03_profiles, leg_c03_asan, leg_c03_miri, leg_c03_valgrind],
-        "rule": "inputs: grammar-aware generation (<= 4 KiB, nesting <= 64), prefixes and single-character mutations of valid inputs over a 40-character hostile alphabet, argument strings up to length 3 after every argument-taking keyword, numeric boundary strings, the lexer's undocumented words, multi-byte boundary inputs; each through parse -> Display / compile -> scheme x2 + io_map under catch_unwind, in a debug and a release build, the worker process supervised for aborts and hangs (bisected to one input; 3 x 30 s isolated re-run rule); the corpus again under AddressSanitizer (nightly, -Zsanitizer=address); the multi-byte subset under Miri; thorough adds valgrind memcheck. distinct_nontrivial = distinct inputs not rejected at the first token (reach an argument sub-parser or the compiler).",
+        "rule": "inputs: grammar-aware generation (<= 4 KiB, nesting <= 64), prefixes and single-character mutations of valid inputs over a 40-character hostile alphabet, argument strings up to length 3 after every argument-taking keyword, numeric boundary strings, the lexer's undocumented words, multi-byte boundary inputs; each through parse -> Display / compile -> scheme x2 + io_map under catch_unwind, in a debug and a release build, the worker process supervised for aborts and hangs (bisected to one input; 3 x 30 s isolated re-run rule); the corpus again under AddressSanitizer (nightly, -Zsanitizer=address); the multi-byte subset under Miri; thorough adds valgrind memcheck. Also hand-built trees (incl. degenerate values and same-field pairs with extreme counts) through compile/scheme/io_map, nested groups to depth 64 in every clause position, and expressions with 20-280 distinct matchers and destinations. distinct_nontrivial = distinct inputs not rejected at the first token (reach an argument sub-parser or the compiler).",
     },
     "C04": {
         "legs": [leg_ambient_env],
@@ -527,7 +527,7 @@ SPECS = {
         "legs": [leg_ambient_env],
         "profiles": ["release", "debug"],
         "uses_model": True,
-        "rule": "every numeric primary (ids, counts, -links, -size x every unit, six time tests x every unit, -threads) x decimal strings at 0,1,2^31,2^32,2^63,2^64,floor(2^64/unit) +-1/2 with 0/1/7/30 leading zeros and signs, up to 40 digits, plus random values; in-range: tree number equals the u128 reference and the executed policy agrees at value-1/value/value+1; out-of-range: must be an error. Both build profiles. distinct_nontrivial = distinct (primary, numeric string) within 2 of a power-of-two boundary of the field or of 2^64/unit.",
+        "rule": "every numeric primary (ids, counts, -links, -size x every unit, six time tests x every unit, -threads) x decimal strings at 0,1,2^31,2^32,2^63,2^64,floor(2^64/unit) +-1/2 with 0/1/7/30 leading zeros and signs, up to 40 digits, plus random values; in-range: tree number equals the u128 reference and the executed policy agrees at value-1/value/value+1; out-of-range: must be an error. Both build profiles. Also ~110 non-decimal notations (fractions, separators, exponents, radix prefixes, SI/IEC/word units, doubled signs, non-ASCII digits) on every primary x unit. distinct_nontrivial = distinct (primary, numeric string) within 2 of a power-of-two boundary of the field or of 2^64/unit.",
     },
     "C08": {
         "legs": [leg_ambient_env],
@@ -551,7 +551,7 @@ SPECS = {
         "legs": [leg_ambient_env],
         "profiles": ["release"],
         "uses_model": True,
-        "rule": "chains in which every test and action runs, with 0..60 (quick) / 0..300 (thorough) matcher/printer requests in random first-occurrence order, deliberate repeats, case-only differences, literal/glob pairs, same file with different terminators, both output modes; random trees; text route. Monitors: scope analysis of the read program (bound once, before use, no capture), behaviour vs reference on distinguishing file names, run-time count of distinct matcher/printer procedure objects vs distinct requests. distinct_nontrivial = programs with >= 2 resources of one kind and a deliberate repeat or near-duplicate.",
+        "rule": "chains in which every test and action runs, with 0..60 (quick) / 0..300 (thorough) matcher/printer requests in random first-occurrence order, deliberate repeats, case-only differences, literal/glob pairs, same file with different terminators, both output modes; random trees; text route. Monitors: scope analysis of the read program (bound once, before use, no capture), behaviour vs reference on distinguishing file names, run-time count of distinct matcher/printer procedure objects vs distinct requests. Also requests a string-encoded key would merge (37 decorations) and patterns that collide under FNV-1a, FNV-1, the 31-multiplier hash and one-at-a-time. distinct_nontrivial = programs with >= 2 resources of one kind and a deliberate repeat or near-duplicate.",
     },
     "C12": {
         "legs": [leg_ambient_env],
@@ -563,23 +563,23 @@ SPECS = {
         "legs": [leg_ambient_env],
         "profiles": ["release"],
         "uses_model": True,
-        "rule": "random option-free expressions with 0..4 options (-depth, -threads N, -maxdepth N, -mindepth N; repeated with different N) inserted at random chunk boundaries (front, middle, inside parentheses, after '!', end); expected options/tree from the spec-side parser; no option node in the tree; thread count observed as the fifth argument lipe-scan receives in the model runtime. distinct_nontrivial = inputs with an option outside the leading run or a repeated option with a different value.",
+        "rule": "random option-free expressions with 0..4 options (-depth, -threads N, -maxdepth N, -mindepth N; repeated with different N) inserted at random chunk boundaries (front, middle, inside parentheses, after '!', end); expected options/tree from the spec-side parser; no option node in the tree; thread count observed as the fifth argument lipe-scan receives in the model runtime. Also leading runs of 17-60 options. An ambient-input leg perturbs every environment variable the code looks up, the logger and (C15) the working directory. distinct_nontrivial = inputs with an option outside the leading run or a repeated option with a different value.",
     },
     "C14": {
         "legs": [leg_ambient_env],
         "profiles": ["release"],
-        "rule": "-printf '<s>' for every string of length 1..4 (quick) / 1..5 (thorough) over {% \\ { } : A p n q f c 0 1 7 8 @} (exhaustive), every documented directive and escape singly and in ordered pairs, random strings to length 60; element list vs a hand-written reference scanner; no empty / adjacent literals. distinct_nontrivial = strings containing '%' or '\\' followed by at least one more character.",
+        "rule": "-printf '<s>' for every string of length 1..4 (quick) / 1..5 (thorough) over {% \\ { } : A p n q f c 0 1 7 8 @} (exhaustive), every documented directive and escape singly and in ordered pairs, random strings to length 60; element list vs a hand-written reference scanner; no empty / adjacent literals. Also literal runs with multi-byte characters around directives and literal runs of 4095..70000 characters. distinct_nontrivial = strings containing '%' or '\\' followed by at least one more character.",
     },
     "C15": {
         "profiles": ["release"],
         "legs": [leg_c15_xproc, leg_ambient_env],
-        "rule": "resource-heavy random expressions: parsed twice; compiled 5 (quick) / 10 (thorough) times interleaved with unrelated compilations (byte-identical text, equal table; clock tokens normalised for time tests); digests compared across 4 / 16 fresh processes; every integer token >= 10^9 inside the clock window of its compile call, with a re-compile after a 1.1 s sleep for a sample. distinct_nontrivial = distinct expressions with >= 3 resources or a time test.",
+        "rule": "resource-heavy random expressions: parsed twice; compiled 5 (quick) / 10 (thorough) times interleaved with unrelated compilations (byte-identical text, equal table; clock tokens normalised for time tests); digests compared across 4 / 16 fresh processes; every integer token >= 10^9 inside the clock window of its compile call, with a re-compile after a 1.1 s sleep for a sample. Also: whenever the library's == calls two trees equal their results must be identical (pairs re-expressed in other units); the same mixed corpus recorded twice on one thread in opposite orders; digests under perturbed environment variables, an installed logger and other working directories. distinct_nontrivial = distinct expressions with >= 3 resources or a time test.",
     },
     "C16": {
         "legs": [leg_ambient_env],
         "profiles": ["release"],
         "uses_model": True,
-        "rule": "programs with 1..3 printers (framed and plain, incl. print-relative-path / print-file-fid) x 2..3 logical scanner threads x 1..2 records each (+ stress: 6 printers, 4 threads x 8 records): the emitted text is executed in the model runtime, each thread's lock/write/unlock steps recorded, and interleavings explored by exhaustive DFS within a budget, then random + priority schedules until no new interleaving for 200 schedules; monitors: lockset (Eraser), frame/line decoder at quiescence with per-thread order, deadlock. distinct_nontrivial = distinct (configuration, interleaving) pairs in which the writers of one port switch between threads at least twice (the threads' records really interleave); schedules with a blocked thread are counted separately.",
+        "rule": "programs with 1..3 printers (framed and plain, incl. print-relative-path / print-file-fid) x 2..3 logical scanner threads x 1..2 records each (+ stress: 6 printers, 4 threads x 8 records): the emitted text is executed in the model runtime, each thread's lock/write/unlock steps recorded, and interleavings explored by exhaustive DFS within a budget, then random + priority schedules until no new interleaving for 200 schedules; monitors: lockset (Eraser), frame/line decoder at quiescence with per-thread order, deadlock. A display issued while the thread holds no mutex is modelled as two steps (ports are not thread-safe). A third of the actions sit behind a condition on the record; constant formats and the deprecated implicit-print node are in the action pool. distinct_nontrivial = distinct (configuration, interleaving) pairs in which the writers of one port switch between threads at least twice (the threads' records really interleave); schedules with a blocked thread are counted separately.",
         "assumptions": ["a display call is the atom of port output; a thread's step sequence does not depend on the schedule (policies read no shared mutable state)"],
     },
     "C17": {
@@ -590,7 +590,7 @@ SPECS = {
     "C18": {
         "legs": [leg_ambient_env],
         "profiles": ["release"],
-        "rule": "every argument-taking keyword x (argument missing at end of input / before ')', or an argument invalid from its first character for the keyword's class) after 0..3 valid primaries, inside parentheses, after '!', before 0..2 more primaries; unknown words at random positions. Message grammar: non-empty, names the keyword, quotes the offending word (empty pair when missing), quotes nothing that is not in the input. distinct_nontrivial = distinct failing inputs with at least one primary before the failing one whose message satisfied the grammar.",
+        "rule": "every argument-taking keyword x (argument missing at end of input / before ')', or an argument invalid from its first character for the keyword's class) after 0..3 valid primaries, inside parentheses, after '!', before 0..2 more primaries; unknown words at random positions. Message grammar: non-empty, names the keyword, quotes the offending word (empty pair when missing), quotes nothing that is not in the input. Also mistyped keywords, control / zero-width characters in offending words, and failing primaries followed by 70-300 KiB of input. distinct_nontrivial = distinct failing inputs with at least one primary before the failing one whose message satisfied the grammar.",
     },
     "C19": {
         "legs": [leg_ambient_env],
